@@ -378,6 +378,24 @@ def gen_data_case(rng, max_rows=8):
     if rng.random() < 0.3:
         sc.append(f'sc_p {arrow()} cast("{rng.choice(["2020Q1", "2021M3", "2019"])}", time_period);')
     stmts += sc
+    # result and scalar names that need quotes (they become file names / rows of _scalars.csv): dots, several dots, blanks, names equal
+    # up to the part before a dot, reserved words, leading digits, unicode
+    if rng.random() < 0.75:
+        ds_pool = [["DS.r", "DS.q", "DS.r.x", "DS"], ["a.b.c", "a.b.d", "a.b"], ["my result", "my  result", "my result.2"],
+                   ["sum", "calc", "1st", "2.0", "résultat", "日本.語"], ["out.csv", "out.parquet", "out.csv.csv", ".hidden", "trail.", "a..b"]]
+        sc_pool = ["sc.x", "sc.y", "sc x", "sc,1", "sc;2", "filter", "9s", "scalaire é", "s.c.a.l", "name", "value"]
+        group = list(rng.choice(ds_pool)) + rng.sample([x for g in ds_pool for x in g], 3)
+        group = list(dict.fromkeys(group))
+        rng.shuffle(sc_pool)
+        renamed = []
+        for st in stmts:
+            head, rest = st.split(" ", 1)
+            if head.startswith("DS_") and group and rng.random() < 0.8:
+                head = "'" + group.pop(0) + "'"
+            elif head.startswith("sc_") and sc_pool and rng.random() < 0.6:
+                head = "'" + sc_pool.pop(0) + "'"
+            renamed.append(head + " " + rest)
+        stmts = renamed
     rng.shuffle(stmts)
     return {"script": "\n".join(stmts) + "\n", "structs": structs, "data": {"DS_1": df}}
 
